@@ -1,5 +1,5 @@
 """C11 - all Finders give the same answer for the same data"""
-from ..rules import exc, search, config, forward, pathops
+from ..rules import exc, search, config, forward, pathops, mutation
 
 DECIDES = ("non-conforming files never break or change a search: nothing escapes the scan loop (R-EXC), a found path is dropped only for the named reasons and yielded behind the falsy / type-mismatch skips (R-SKIPS), a foreign path is never typed (R-REFORMAT); local and server are the same tables up to the root (R-ROOT / R-IDEM) and every FindInPaths threads its own configuration (R-FWD); sibling find implementations agree on unfolding (R-UNFOLDALL); FindInAll dispatches per Finder instance (R-GROUPFINDER). Also: one sort and one groupby decide '>' in every finder (R-SORT); routing by type alone (R-FINDERROUTE).")
 DOES_NOT_DECIDE = 'equality of result sets across finders'
@@ -17,4 +17,5 @@ def rules(ctx, tier):
         lambda: search.rule_groupfinder(ctx),
         lambda: search.rule_sort(ctx),
         lambda: search.rule_finderroute(ctx),
+        lambda: mutation.rule_mut(ctx),
     ]
